@@ -152,3 +152,6 @@ pub fn gradual_palpables(
     })
     .collect())
 }
+
+/// The per-object loop of `convert_objects` step by step, and its real output.
+pub use super::convert::verif::{convert_steps, converted, ConvStep};
